@@ -222,6 +222,19 @@ func (r Rng) lineCase() (lon0, lat0, alt0, lon1, lat1, alt1 float64, H, V int64)
 	lon1, lat1, alt1 = realCoord(x1, y1, f1, H, V)
 	cl := func(v float64) float64 { return clamp(v, -latLimit, latLimit) }
 	lat0, lat1 = cl(lat0), cl(lat1)
+	if r.Chance(0.15) {
+		// way points as they are written down: a fixed number of decimals, altitudes in half metres / feet
+		p := math.Pow(10, float64(r.In(4, 10)))
+		rd := func(v float64) float64 { return math.Round(v*p) / p }
+		lon0, lat0, lon1, lat1 = rd(lon0), cl(rd(lat0)), rd(lon1), cl(rd(lat1))
+		if lon0 >= 180 || lon1 >= 180 {
+			lon0, lon1 = math.Min(lon0, 179.9999), math.Min(lon1, 179.9999)
+		}
+		q := []float64{0.5, 0.3048, 0.1, 1}[r.Intn(4)]
+		alt0, alt1 = math.Round(alt0/q)*q, math.Round(alt1/q)*q
+		a := math.Ldexp(1, 25)
+		alt0, alt1 = clamp(alt0, -a, a), clamp(alt1, -a, a)
+	}
 	return
 }
 
